@@ -298,6 +298,35 @@ where
   }
 }
 
+/// Upper bound on what is allocated up front for a length announced in a CBOR
+/// head. The announced length is attacker controlled and must not be trusted:
+/// buffers grow as data actually arrives.
+const MAX_PREALLOC: usize = 4096;
+
+/// Read exactly `n` bytes without allocating `n` bytes before they are known
+/// to be present in the input.
+fn read_exact_len<R: ciborium_io::Read>(
+  decoder: &mut Decoder<R>,
+  n: usize,
+) -> Result<Vec<u8>, DecodeError>
+where
+  ciborium_ll::Error<R::Error>: Into<DecodeError>,
+{
+  let mut buf = Vec::with_capacity(n.min(MAX_PREALLOC));
+  let mut chunk = [0u8; MAX_PREALLOC];
+  let mut remaining = n;
+  while remaining > 0 {
+    let k = remaining.min(MAX_PREALLOC);
+    decoder.read_exact(&mut chunk[..k]).map_err(|e| {
+      let io_err: ciborium_ll::Error<R::Error> = ciborium_ll::Error::Io(e);
+      io_err.into()
+    })?;
+    buf.extend_from_slice(&chunk[..k]);
+    remaining -= k;
+  }
+  Ok(buf)
+}
+
 fn read_bytes<R: ciborium_io::Read>(
   decoder: &mut Decoder<R>,
   len: Option<usize>,
@@ -307,12 +336,7 @@ where
 {
   match len {
     Some(n) => {
-      let mut buf = vec![0u8; n];
-      decoder.read_exact(&mut buf).map_err(|e| {
-        let io_err: ciborium_ll::Error<R::Error> = ciborium_ll::Error::Io(e);
-        io_err.into()
-      })?;
-      Ok(buf)
+      read_exact_len(decoder, n)
     }
     None => {
       // Indefinite-length bytes: read segments until break
@@ -344,11 +368,7 @@ where
 {
   match len {
     Some(n) => {
-      let mut buf = vec![0u8; n];
-      decoder.read_exact(&mut buf).map_err(|e| {
-        let io_err: ciborium_ll::Error<R::Error> = ciborium_ll::Error::Io(e);
-        io_err.into()
-      })?;
+      let buf = read_exact_len(decoder, n)?;
       String::from_utf8(buf).map_err(|_| DecodeError::Syntax(decoder.offset()))
     }
     None => {
@@ -381,7 +401,7 @@ where
 {
   match len {
     Some(n) => {
-      let mut items = Vec::with_capacity(n);
+      let mut items = Vec::with_capacity(n.min(MAX_PREALLOC));
       for _ in 0..n {
         items.push(decode_value(decoder)?);
       }
@@ -411,7 +431,7 @@ where
 {
   match len {
     Some(n) => {
-      let mut entries = Vec::with_capacity(n);
+      let mut entries = Vec::with_capacity(n.min(MAX_PREALLOC));
       for _ in 0..n {
         let key = decode_value(decoder)?;
         let val = decode_value(decoder)?;
